@@ -71,7 +71,7 @@ def _symbolic_inputs(cfg: dict):
     re-execution yields identical terms)."""
     N, L = cfg['N'], cfg['L']
     B = cfg['B'] * (2 if cfg.get('repeat') else 1)   # a second solve of the same period continues the script
-    names = check_names(N) + (['Z'] if cfg['with_z'] else []) + ['X']
+    names = check_names(N) + (['Z'] if cfg['with_z'] else []) + [cfg.get('exo_name', 'X')]
     cells = {n: [SFloat(f'{n}_{j}') for j in range(L)] for n in names}
     s = Script(N, B, with_z=cfg['with_z'])
     for p in range(1, B + 1):
@@ -117,10 +117,10 @@ def _assume_domain(ctx: Ctx, cfg: dict, names, cells, s: Script, tol, min_iter, 
 
 
 def _model_class(cfg: dict):
-    S = make_scripted(cfg['N'], with_z=cfg['with_z'])
+    S = make_scripted(cfg['N'], with_z=cfg['with_z'], exo_name=cfg.get('exo_name', 'X'))
     if cfg.get('tracer') is None:
         return S
-    key = (cfg['N'], cfg['with_z'])
+    key = (cfg['N'], cfg['with_z'], cfg.get('exo_name', 'X'))
     if key not in _TRACED:
         from fsic.extensions.model import TracerMixin
 
@@ -164,8 +164,9 @@ def _build_model(cfg: dict, cells: Dict[str, list], script: Script, dtype):
         m.attach(pre)
         with (shimmed() if dtype is object else contextlib.nullcontext()), warnings.catch_warnings():
             warnings.simplefilter('ignore')
+            pkw = {'trace': cfg['tracer']} if cfg.get('tracer') not in (None, False) else {}
             for j in range(len(wide)):
-                m.solve_t(j, max_iter=2, failures='ignore', errors='ignore')
+                m.solve_t(j, max_iter=2, failures='ignore', errors='ignore', **pkw)
             for n in m.names:       # read paths
                 getattr(m, n), m[n], m.eval(n)
                 if wide:
@@ -186,6 +187,9 @@ def _build_model(cfg: dict, cells: Dict[str, list], script: Script, dtype):
     if stage and cfg.get('status0') is None:
         m.status = '-'
         m.iterations = -1
+    if stage and cfg.get('tracer') is not None:
+        from fsic.extensions.model import Trace
+        m.__dict__['_trace'] = np.array([Trace([]) for _ in m.span])   # the earlier solves' records are not under test
     s0 = cfg.get('status0')
     if s0 is not None:
         idx = SInt('status0').__index__() if s0 == 'sym' else int(s0)
